@@ -15,7 +15,7 @@ ID, N = sys.argv[1], sys.argv[2]
 args = sys.argv[3:]
 SRC = f"/tmp/seed/{ID}/out"
 diff, demo, note = f"{SRC}/m{N}.diff", f"{SRC}/m{N}_demo.rs", f"{SRC}/m{N}.md"
-WT = "/tmp/scratch/st"
+WT = os.environ.get("SEED_WT", "/tmp/scratch/st")
 ENV = dict(os.environ, CARGO_NET_OFFLINE="true")
 
 
@@ -33,6 +33,16 @@ def suite(cwd, extra=""):
 
 def main():
     meta = {"property": ID, "mutant": f"m{N}", "source": "independent sub-agent given only the property text and a scratch worktree"}
+    confirm_file = f"{SRC}/m{N}.confirm.json"
+    if "--phase2" in args:
+        if not os.path.exists(confirm_file):
+            print("not confirmed yet (run --phase1 first)")
+            return 2
+        meta = json.load(open(confirm_file))
+        if not meta.get("confirmed"):
+            print("phase 1 did not confirm this change")
+            return 1
+        return phase2(meta)
     for f in (diff, demo):
         if not os.path.exists(f):
             print(f"missing {f}")
@@ -63,7 +73,7 @@ def main():
     text = open(demo).read() + (meta["needs_to_manifest"] or "")
     if "verif_hooks" in text or ID == "C11":
         denv["RUSTFLAGS"] = "--cfg e57_verif"
-    feat = "--features crc32c" if ("crc32c" in meta["needs_to_manifest"] and ID == "C07" and "--features crc32c" in meta["needs_to_manifest"]) else ""
+    feat = "" if "--no-crc-feature" in args else "--features crc32c" if ("crc32c" in meta["needs_to_manifest"] and ID == "C07" and "--features crc32c" in meta["needs_to_manifest"]) else ""
     rc_with, out_with = sh(f"cargo test --offline {feat} --test {demo_name}", cwd=WT, env=denv, timeout=1200)
     sh("git checkout -- src tools", cwd=WT)
     rc_without, out_without = sh(f"cargo test --offline {feat} --test {demo_name}", cwd=WT, env=denv, timeout=1200)
@@ -78,6 +88,7 @@ def main():
     ]
     confirmed = ok_suite and rc_with != 0 and rc_without == 0
     meta["confirmed"] = confirmed
+    json.dump(meta, open(f"{SRC}/m{N}.confirm.json", "w"), indent=1)
     print(json.dumps({k: meta[k] for k in ("suite_with_change", "demo_fails_with_change", "demo_passes_without_change", "confirmed")}))
     if not confirmed:
         if not ok_suite:
@@ -87,6 +98,12 @@ def main():
         if rc_without != 0:
             print("DEMO FAILS WITHOUT CHANGE:\n", out_without[-2500:])
         return 1
+    if "--phase1" in args:
+        return 0
+    return phase2(meta)
+
+
+def phase2(meta):
     # ---- step 2: run the checks against the change applied to /repo
     checks = [ID]
     if "--all" in args:
